@@ -134,5 +134,33 @@ def check(ctx: Ctx) -> list[RuleResult]:
         r3.ok({"transport_factory": "packet_dict=packets"})
     else:
         r3.fail(f"{rc.short}:transport_factory", rc.loc(), "the restore no longer feeds the packets through transport_factory(packet_dict=packets)")
+    # the packets restored are the packets given: the parameter reaches the transport unfiltered (an age cut-off, a de-duplication,
+    # a sort-and-slice before the replay all make snapshot -> restore -> snapshot lose packets the first snapshot kept)
+    r3.instances += 1
+    r3.nontrivial += 1
+    pparams = [a.arg for a in rc.node.args.args if a.arg != "self"]
+    pk = pparams[0] if pparams else "packets"
+    rebinds = [n for n in own_nodes(rc.node) if isinstance(n, ast.Name) and n.id == pk and isinstance(n.ctx, (ast.Store, ast.Del))]
+    muts = [n for n in own_nodes(rc.node) if isinstance(n, ast.Call) and isinstance(n.func, ast.Attribute) and isinstance(n.func.value, ast.Name) and n.func.value.id == pk and n.func.attr in ("pop", "popitem", "clear", "update", "setdefault", "__delitem__")] + [n for n in own_nodes(rc.node) if isinstance(n, ast.Delete) and any(isinstance(t, ast.Subscript) and isinstance(t.value, ast.Name) and t.value.id == pk for t in n.targets)]
+    if rebinds or muts:
+        n0 = (rebinds or muts)[0]
+        r3.fail(f"{rc.short}:packets-filtered-before-restore", rc.loc(n0), f"_restore_cached_packets re-binds/mutates its `{pk}` argument (`{norm(getattr(n0, 'parent', n0))[:70]}`) before replaying it: packets the snapshot kept (never-expiring schedule fragments, 313F, anything taken with include_expired) are not restored, so a second snapshot differs from the first")
+    else:
+        r3.ok({"packets_argument": "replayed as given (never re-bound or mutated)"})
+    # ...and they are replayed into a started engine: Gateway.start() brings the engine up first (restore relies on the engine's
+    # clock/transport to age the packets consistently; restored before the transport exists they are aged against the wall clock)
+    gst = repo.func(f"{G}.Gateway.start")
+    cfgs = ctx.plain_cfg(gst)
+    rest = [x for x in cfgs.nodes if x.ast is not None and x.kind == "stmt" and any(isinstance(c, ast.Call) and isinstance(c.func, ast.Attribute) and c.func.attr == rc.name for c in ast.walk(x.ast))]
+    sup = [x for x in cfgs.nodes if x.ast is not None and x.kind == "stmt" and any(isinstance(c, ast.Call) and isinstance(c.func, ast.Attribute) and c.func.attr == "start" and isinstance(c.func.value, ast.Call) and norm(c.func.value.func) == "super" for c in ast.walk(x.ast))]
+    if not rest or not sup:
+        raise AnalysisError("Gateway.start: the restore call / super().start() was not found")
+    r3.instances += 1
+    r3.nontrivial += 1
+    doms = cfgs.dominators()
+    if all(any(s0.id in doms[r0.id] for s0 in sup) for r0 in rest):
+        r3.ok({"Gateway.start": "super().start() dominates the restore"})
+    else:
+        r3.fail(f"{gst.short}:restore-before-engine-start", gst.loc(rest[0].ast), "Gateway.start() restores the cached packets before the engine (protocol + transport) has been started: the restored messages are then aged against the wall clock instead of the engine's clock, so a restart of a replayed/file-based gateway expires (and lazily deletes) packets the snapshot held")
     out.append(r3)
     return out
